@@ -367,3 +367,539 @@ theorem ow_insertRow_any (m : Mode) (cap : Nat) (t : TD α) (h : t.Inv) (i : Nat
   · exact ⟨by simp, by simp, hpI, hpermFail _ (List.Perm.refl _)⟩
 
 end Toodee
+
+namespace Toodee
+variable {α : Type}
+
+/-! ### insert_col with an arbitrary iterator script -/
+
+theorem ow_memmove_length (buf : List α) (src dst n : Nat) (h1 : src + n ≤ buf.length) (h2 : dst + n ≤ buf.length) :
+    (memmove buf src dst n).length = buf.length := by
+  simp only [memmove, List.length_append, List.length_take, List.length_drop]
+  omega
+
+theorem ow_memmoveChecked_ok (buf : List α) (src dst n : Nat) (h1 : src + n ≤ buf.length) (h2 : dst + n ≤ buf.length) :
+    ∃ b, memmoveChecked buf src dst n = .ok b ∧ b.length = buf.length :=
+  ⟨memmove buf src dst n, by unfold memmoveChecked; rw [if_pos ⟨h1, h2⟩]; rfl, ow_memmove_length buf src dst n h1 h2⟩
+
+theorem ow_ptrWrite_ok (buf : List α) (p : Nat) (x : α) (h : p < buf.length) :
+    ∃ b, ptrWrite buf p x = .ok b ∧ b.length = buf.length :=
+  ⟨buf.set p x, by unfold ptrWrite; rw [if_pos h]; rfl, by simp⟩
+
+/-- events not consumed by a loop that ended normally can be anything: they are handed on unchanged -/
+theorem ow_insColLoop_append (C : Nat) : ∀ (k : Nat) (ev rem : List (Option α)) (buf : List α) (rp wp : Nat)
+    (b : List α) (ev' : List (Option α)) (rp' wp' n : Nat),
+    insColLoop C k ev buf rp wp = (b, ev', rp', wp', n, none) →
+    insColLoop C k (ev ++ rem) buf rp wp = (b, ev' ++ rem, rp', wp', n, none)
+  | 0, ev, rem, buf, rp, wp, b, ev', rp', wp', n, h => by
+    simp only [insColLoop, Prod.mk.injEq] at h ⊢
+    obtain ⟨h1, h2, h3, h4, h5, _⟩ := h
+    subst h1 h2 h3 h4 h5
+    simp
+  | k + 1, ev, rem, buf, rp, wp, b, ev', rp', wp', n, h => by
+    simp only [insColLoop] at h ⊢
+    by_cases hc : rp < C ∨ wp < C
+    · rw [if_pos hc] at h; simp at h
+    · rw [if_neg hc] at h ⊢
+      cases hmv : memmoveChecked buf (rp - C) (wp - C) C with
+      | error e => rw [hmv] at h; simp at h
+      | ok buf1 =>
+        rw [hmv] at h
+        simp only at h ⊢
+        by_cases hw : wp - C < 1
+        · rw [if_pos hw] at h; simp at h
+        · rw [if_neg hw] at h ⊢
+          match ev, h with
+          | [], h => simp at h
+          | none :: ev0, h => simp at h
+          | some x :: ev0, h =>
+            simp only [List.cons_append] at h ⊢
+            cases hpw : ptrWrite buf1 (wp - C - 1) x with
+            | error e => rw [hpw] at h; simp at h
+            | ok buf2 =>
+              rw [hpw] at h
+              simp only at h ⊢
+              rcases hr : insColLoop C k ev0 buf2 (rp - C) (wp - C - 1) with ⟨b1, e1, r1, w1, n1, err1⟩
+              rw [hr] at h
+              simp only [Prod.mk.injEq] at h
+              obtain ⟨h1, h2, h3, h4, h5, h6⟩ := h
+              subst h1 h2 h3 h4 h5 h6
+              rw [ow_insColLoop_append C k ev0 rem buf2 (rp - C) (wp - C - 1) _ _ _ _ _ hr]
+
+/-- a script that ends (or panics) before the loop is done: the loop panics; never `ub` -/
+theorem ow_insColLoop_short (C : Nat) : ∀ (k : Nat) (ys : List α) (tail : List (Option α)) (buf : List α) (rp wp : Nat),
+    ys.length < k → (tail = [] ∨ ∃ tl, tail = none :: tl) →
+    k * C ≤ rp → k * C + k ≤ wp → rp ≤ buf.length → wp ≤ buf.length →
+    ∃ b ev' rp' wp' n, insColLoop C k (ys.map some ++ tail) buf rp wp = (b, ev', rp', wp', n, some .panic) ∧
+      ∃ pre, ys.map some ++ tail = pre ++ ev'
+  | 0, ys, tail, buf, rp, wp, hy, _, _, _, _, _ => by omega
+  | k + 1, ys, tail, buf, rp, wp, hy, ht, h1, h2, h3, h4 => by
+    rw [Nat.add_mul] at h1 h2
+    have hc : ¬ (rp < C ∨ wp < C) := by omega
+    obtain ⟨buf1, hmv, hl1⟩ := ow_memmoveChecked_ok buf (rp - C) (wp - C) C (by omega) (by omega)
+    have hw : ¬ (wp - C < 1) := by omega
+    simp only [insColLoop, if_neg hc, hmv, if_neg hw]
+    match ys, hy with
+    | [], _ =>
+      rcases ht with rfl | ⟨tl, rfl⟩
+      · exact ⟨_, _, _, _, _, rfl, [], rfl⟩
+      · exact ⟨_, _, _, _, _, rfl, [none], rfl⟩
+    | y :: ys0, hy =>
+      obtain ⟨buf2, hpw, hl2⟩ := ow_ptrWrite_ok buf1 (wp - C - 1) y (by omega)
+      obtain ⟨b, ev', rp', wp', n, hr, pre, hpre⟩ := ow_insColLoop_short C k ys0 tail buf2 (rp - C) (wp - C - 1)
+        (by simpa using hy) ht (by omega) (by omega) (by omega) (by omega)
+      simp only [List.map_cons, List.cons_append, hpw, hr]
+      exact ⟨_, _, _, _, _, rfl, some y :: pre, by rw [hpre]; rfl⟩
+
+/-- an event list either starts with `R` items, or with fewer items followed by the end of the script or a panic -/
+theorem ow_events_split : ∀ (R : Nat) (ev : List (Option α)),
+    (∃ (ys : List α) (rem : List (Option α)), ys.length = R ∧ ev = ys.map some ++ rem) ∨
+    (∃ (ys : List α) (tail : List (Option α)), ys.length < R ∧ ev = ys.map some ++ tail ∧ (tail = [] ∨ ∃ tl, tail = none :: tl))
+  | 0, ev => Or.inl ⟨[], ev, rfl, rfl⟩
+  | R + 1, [] => Or.inr ⟨[], [], by simp, rfl, Or.inl rfl⟩
+  | R + 1, none :: ev => Or.inr ⟨[], none :: ev, by simp, rfl, Or.inr ⟨ev, rfl⟩⟩
+  | R + 1, some y :: ev => by
+    rcases ow_events_split R ev with ⟨ys, rem, h1, h2⟩ | ⟨ys, tail, h1, h2, h3⟩
+    · exact Or.inl ⟨y :: ys, rem, by simp [h1], by simp [h2]⟩
+    · exact Or.inr ⟨y :: ys, tail, by simp; omega, by simp [h2], h3⟩
+
+
+/-- what the end of `insert_col`'s critical section does with the events the loop did not consume -/
+def ow_critTail (m : Mode) (b : List α) (rem : List (Option α)) : Res (List α) × List (Option α) :=
+  let (ev, err, droppedItem) := debugExhausted m rem
+  match err with
+  | some e => (throw e, droppedItem.map some ++ ev)
+  | none => (pure b, ev)
+
+/-- `insertColCrit_spec` with unconsumed events `rem` behind the `|rows|` items -/
+theorem ow_insertColCrit_full (m : Mode) (C i : Nat) (hi : i ≤ C) (rows : List (List α)) (xs spare : List α)
+    (rem : List (Option α))
+    (hrows : ∀ r ∈ rows, r.length = C) (hx : xs.length = rows.length) (hsp : xs.length ≤ spare.length) :
+    insertColCrit m C xs.length i rows.flatten.length (rows.flatten.length + xs.length) (C - i)
+        (rows.flatten ++ spare) ((xs.map some).reverse ++ rem)
+      = ow_critTail m ((List.zipWith (insAt i) rows xs).flatten ++ spare.drop xs.length) rem := by
+  rcases List.eq_nil_or_concat rows with rfl | ⟨pre, ρ, rfl⟩
+  · have : xs = [] := by simpa using hx
+    subst this
+    rcases hde : debugExhausted m rem with ⟨ev2, _ | e2, d2⟩ <;> simp [insertColCrit, ow_critTail, hde]
+  · rcases List.eq_nil_or_concat xs with rfl | ⟨xs', x, rfl⟩
+    · simp at hx
+    · simp only [List.concat_eq_append] at *
+      have hρ : ρ.length = C := hrows ρ (by simp)
+      have hpre : ∀ r ∈ pre, r.length = C := fun r hr => hrows r (by simp [hr])
+      have hxs : xs'.length = pre.length := by simpa using hx
+      have hflat : pre.flatten.length = pre.length * C := flatten_length_uniform C pre hpre
+      have hlenAll : (pre ++ [ρ]).flatten.length = pre.length * C + C := by
+        simp [List.flatten_append, hflat, hρ]
+      have hxl : (xs' ++ [x]).length = pre.length + 1 := by simp [hxs]
+      let X := pre.flatten ++ ρ.take i
+      let blk := ρ.drop i
+      let J := spare.take (pre.length + 1)
+      let Y := spare.drop (pre.length + 1)
+      have hX : X.length = pre.length * C + i := by simp [X, hflat, hρ]; omega
+      have hblk : blk.length = C - i := by simp [blk, hρ]
+      have hJ : J.length = pre.length + 1 := by simp [J]; omega
+      have hbuf : (pre ++ [ρ]).flatten ++ spare = X ++ blk ++ J ++ Y := by
+        simp [X, blk, J, Y, List.flatten_append]
+      obtain ⟨J1, hJ1, hmv⟩ := memmoveChecked_right X blk J Y
+      obtain ⟨J2, hJ2, hset⟩ := ptrWrite_last_of_junk X J1 (blk ++ Y) x (by rw [hJ1, hJ]; simp)
+      have hloop0 := insColLoop_spec C i hi pre.reverse xs'.reverse ρ J2 ([x] ++ blk) Y
+        (by simpa using hpre) hρ (by simpa using hxs) (by simp; omega)
+      have hloop := ow_insColLoop_append C _ _ rem _ _ _ _ _ _ _ _ hloop0
+      simp only [List.reverse_reverse, List.length_reverse, List.nil_append] at hloop
+      have e0 : ¬ (pre.length * C + C < C - i ∨ pre.length * C + C + (pre.length + 1) < C - i) := by omega
+      have e1 : pre.length * C + C - (C - i) = X.length := by rw [hX]; omega
+      have e2 : pre.length * C + C + (pre.length + 1) - (C - i) = X.length + J.length := by rw [hX, hJ]; omega
+      have e3 : ¬ (X.length + J.length < 1) := by omega
+      have hmv' : memmoveChecked (X ++ blk ++ J ++ Y) X.length (X.length + J.length) (C - i)
+          = .ok (X ++ J1 ++ blk ++ Y) := by
+        rw [← hblk]; exact hmv
+      have e4 : X.length + J.length - 1 = X.length + pre.length := by rw [hJ]; omega
+      have hset' : ptrWrite (X ++ J1 ++ blk ++ Y) (X.length + pre.length) x
+          = .ok (pre.flatten ++ ρ.take i ++ J2 ++ ([x] ++ blk) ++ Y) := by
+        rw [← e4, ← hJ1, show X ++ J1 ++ blk ++ Y = X ++ J1 ++ (blk ++ Y) by simp, hset]
+        simp [X]
+      have e5 : pre.length + 1 - 1 = pre.length := by omega
+      rw [← hX] at hloop
+      have hev : (List.map some (xs' ++ [x])).reverse ++ rem = some x :: (xs'.reverse.map some ++ rem) := by simp
+      have e6 : ¬ (i < i ∨ i < i) := by omega
+      have hpos : pre.length + 1 > 0 := by omega
+      have hfin : memmoveChecked ((List.zipWith (insAt i) pre xs').flatten ++ ρ.take i ++ ([x] ++ blk) ++ Y) (i - i) (i - i) i
+          = .ok ((List.zipWith (insAt i) pre xs').flatten ++ ρ.take i ++ ([x] ++ blk) ++ Y) := by
+        apply memmoveChecked_self
+        simp [hρ]; omega
+      unfold insertColCrit
+      simp only [hxl, hlenAll, if_pos hpos, if_neg e0, e1, e2, hbuf, hmv', if_neg e3, hev, hset', e4, e5, hloop,
+        if_neg e6, hfin]
+      have hz : List.zipWith (insAt i) (pre ++ [ρ]) (xs' ++ [x])
+          = List.zipWith (insAt i) pre xs' ++ [insAt i ρ x] := by
+        rw [List.zipWith_append (by simp [hxs])]
+        simp
+      rw [hz]
+      rcases hde : debugExhausted m rem with ⟨ev2, _ | e2, d2⟩ <;>
+        simp [ow_critTail, hde, insAt, blk, Y, List.flatten_append]
+
+
+/-- a script that ends or panics before one item per row was pulled: the critical section panics; never `ub` -/
+theorem ow_insertColCrit_short (m : Mode) (C R i oldLen : Nat) (buf : List α) (ys : List α) (tail : List (Option α))
+    (hi : i ≤ C) (hold : oldLen = R * C) (hbuf : oldLen + R ≤ buf.length)
+    (hy : ys.length < R) (ht : tail = [] ∨ ∃ tl, tail = none :: tl) :
+    ∃ rem, insertColCrit m C R i oldLen (oldLen + R) (C - i) buf (ys.map some ++ tail) = (.error .panic, rem) ∧
+      ∃ pre, ys.map some ++ tail = pre ++ rem := by
+  obtain ⟨R', rfl⟩ : ∃ R', R = R' + 1 := ⟨R - 1, by omega⟩
+  rw [Nat.add_mul, Nat.one_mul] at hold
+  have hpos : R' + 1 > 0 := by omega
+  have e0 : ¬ (oldLen < C - i ∨ oldLen + (R' + 1) < C - i) := by omega
+  obtain ⟨buf1, hmv, hl1⟩ := ow_memmoveChecked_ok buf (oldLen - (C - i)) (oldLen + (R' + 1) - (C - i)) (C - i)
+    (by omega) (by omega)
+  have hw : ¬ (oldLen + (R' + 1) - (C - i) < 1) := by omega
+  unfold insertColCrit
+  simp only [if_pos hpos, if_neg e0, hmv, if_neg hw]
+  match ys, hy with
+  | [], _ =>
+    rcases ht with rfl | ⟨tl, rfl⟩
+    · exact ⟨_, rfl, [], rfl⟩
+    · exact ⟨_, rfl, [none], rfl⟩
+  | y :: ys0, hy =>
+    obtain ⟨buf2, hpw, hl2⟩ := ow_ptrWrite_ok buf1 (oldLen + (R' + 1) - (C - i) - 1) y (by omega)
+    obtain ⟨b, ev', rp', wp', n, hr, pre, hpre⟩ := ow_insColLoop_short C R' ys0 tail buf2 (oldLen - (C - i))
+      (oldLen + (R' + 1) - (C - i) - 1) (by simpa using hy) ht (by omega) (by omega) (by omega) (by omega)
+    simp only [List.map_cons, List.cons_append, hpw, Nat.add_sub_cancel, hr]
+    exact ⟨_, rfl, some y :: pre, by rw [hpre]; rfl⟩
+
+/-- the critical section of `insert_col` for an arbitrary script: it panics, or it pulled exactly one item per row and the
+    result is that of the honest run; the events left are a suffix of the script; never `ub` -/
+theorem ow_insertColCrit_any (m : Mode) (C i : Nat) (hi : i ≤ C) (rows : List (List α)) (spare : List α)
+    (ev : List (Option α)) (hrows : ∀ r ∈ rows, r.length = C) (hsp : rows.length ≤ spare.length) :
+    ∃ r rem pre, insertColCrit m C rows.length i rows.flatten.length (rows.flatten.length + rows.length) (C - i)
+        (rows.flatten ++ spare) ev = (r, rem) ∧ ev = pre ++ rem ∧
+      (r = .error .panic ∨ ∃ xs : List α, xs.length = rows.length ∧ pre = (xs.map some).reverse ∧
+        r = .ok ((List.zipWith (insAt i) rows xs).flatten ++ spare.drop rows.length)) := by
+  rcases ow_events_split rows.length ev with ⟨ys, rem, h1, rfl⟩ | ⟨ys, tail, h1, rfl, h3⟩
+  · have hfull := ow_insertColCrit_full m C i hi rows ys.reverse spare rem hrows (by simpa using h1) (by simpa [h1] using hsp)
+    simp only [List.length_reverse, h1, List.map_reverse, List.reverse_reverse] at hfull
+    rw [hfull]
+    unfold ow_critTail
+    cases m with
+    | release =>
+      exact ⟨_, _, _, rfl, rfl, Or.inr ⟨ys.reverse, by simpa using h1, by simp, rfl⟩⟩
+    | debug =>
+      match rem with
+      | [] => exact ⟨_, _, ys.map some, rfl, rfl, Or.inr ⟨ys.reverse, by simpa using h1, by simp, rfl⟩⟩
+      | none :: rem' => exact ⟨_, _, ys.map some ++ [none], rfl, by simp, Or.inl rfl⟩
+      | some x :: rem' => exact ⟨_, _, ys.map some, rfl, by simp, Or.inl rfl⟩
+  · obtain ⟨rem, hc, pre, hpre⟩ := ow_insertColCrit_short m C rows.length i rows.flatten.length (rows.flatten ++ spare)
+      ys tail hi (flatten_length_uniform C rows hrows) (by simp; omega) h1 h3
+    exact ⟨_, rem, pre, hc, hpre, Or.inl rfl⟩
+
+
+theorem ow_pulled_eq (pre rem : List (Option α)) : pulled (pre ++ rem) rem = pre.filterMap id := by
+  unfold pulled
+  rw [List.length_append, Nat.add_sub_cancel, List.take_left' rfl]
+
+theorem ow_insertCol_any (m : Mode) (cap : Nat) (t : TD α) (h : t.Inv) (i : Nat) (it : IterScript α) (spare : List α)
+    (hsp : it.claimed ≤ spare.length ∨ ¬ reserveOk cap t.data.length (if t.numCols = 0 then it.claimed else t.numRows))
+    (hcapw : cap < WORD) :
+    (t.insertCol m cap i it spare).res ≠ .error .ub ∧ (t.insertCol m cap i it spare).res ≠ .error .fuel ∧
+    (t.insertCol m cap i it spare).t.Inv ∧
+    ((t.insertCol m cap i it spare).t.data ++ (t.insertCol m cap i it spare).leaked
+        ++ (t.insertCol m cap i it spare).rest.filterMap id).Perm (t.data ++ it.events.filterMap id) := by
+  classical
+  have hd := h.len
+  have hw := h.word
+  have hz := h.zero
+  have hword0 : (0 : Nat) < WORD := by unfold WORD; omega
+  have hempty : (⟨[], 0, 0⟩ : TD α).Inv := ⟨rfl, Iff.rfl, hword0⟩
+  unfold TD.insertCol
+  by_cases hi : i ≤ t.numCols
+  case neg =>
+    rw [if_pos hi]
+    exact ⟨by simp, by simp, h, by simp⟩
+  rw [if_neg (by simpa using hi)]
+  by_cases hlenOk : (t.numCols == 0 || t.numRows == it.claimed) = true
+  case neg =>
+    simp only [hlenOk]
+    exact ⟨by simp, by simp, h, by simp⟩
+  simp only [hlenOk, Bool.not_true, Bool.false_eq_true, if_false]
+  generalize hN : (if t.numCols = 0 then it.claimed else t.numRows) = R at hsp ⊢
+  by_cases hres : reserveOk cap t.data.length R = true
+  case neg =>
+    simp only [hres]
+    exact ⟨by simp, by simp, h, by simp⟩
+  simp only [hres, Bool.not_true, Bool.false_eq_true, if_false]
+  have hRc : R = it.claimed := by
+    by_cases h0 : t.numCols = 0
+    · rw [← hN, if_pos h0]
+    · rw [← hN, if_neg h0]
+      simpa [h0] using hlenOk
+  have hspn : ¬ spare.length < R := by
+    rcases hsp with h1 | h1
+    · omega
+    · exact absurd hres h1
+  rw [if_neg hspn]
+  have hcapR : t.data.length + R ≤ cap := by simpa [reserveOk] using hres
+  have hadd : uadd m t.data.length R = .ok (t.data.length + R) := uadd_ok m _ _ (by omega)
+  have hsub : usub m t.numCols i = .ok (t.numCols - i) := usub_ok m _ _ hi
+  simp only [hadd, hsub]
+  -- the rows the buffer is made of (an array without columns: one empty row per item)
+  obtain ⟨rows, hrows, hdata, hrl⟩ : ∃ rows : List (List α), (∀ r ∈ rows, r.length = t.numCols) ∧
+      t.data = rows.flatten ∧ rows.length = R := by
+    by_cases hc : t.numCols = 0
+    · refine ⟨List.replicate R [], ?_, ?_, by simp⟩
+      · intro r hr
+        rw [List.eq_of_mem_replicate hr, hc]; rfl
+      · rw [List.flatten_replicate_nil]
+        apply List.eq_nil_of_length_eq_zero
+        rw [hd, hc, Nat.zero_mul]
+    · refine ⟨t.grid, t.grid_row_length, h.data_eq_flatten_grid, ?_⟩
+      rw [h.grid_length, ← hN, if_neg hc]
+  have hlenR : t.data.length = t.numCols * R := by
+    rw [hd]
+    by_cases hc : t.numCols = 0
+    · rw [hc, Nat.zero_mul, Nat.zero_mul]
+    · rw [← hN, if_neg hc]
+  obtain ⟨r, rem, pre, hcrit, hev, hr⟩ := ow_insertColCrit_any m t.numCols i hi rows spare it.events.reverse hrows
+    (by omega)
+  rw [← hdata, hrl] at hcrit
+  have hevents : it.events = rem.reverse ++ pre.reverse := by
+    have := congrArg List.reverse hev
+    simpa using this
+  rw [hcrit]
+  rcases hr with rfl | ⟨xs, hxl, hpre, rfl⟩
+  · -- panic inside the critical section: everything is leaked
+    simp only
+    refine ⟨by simp, by simp, hempty, ?_⟩
+    rw [hev, ow_pulled_eq, hevents]
+    apply ow_perm_of_count
+    intro a
+    simp only [List.count_append, List.filterMap_append, List.filterMap_reverse, List.count_reverse, List.count_nil]
+    omega
+  · -- one item per row was pulled
+    have hZ := zipWith_insAt_flatten_length t.numCols i hi rows xs hrows (by omega)
+    rw [← hdata, hxl, hrl] at hZ
+    have htake : List.take (t.data.length + R) ((List.zipWith (insAt i) rows xs).flatten ++ spare.drop R)
+        = (List.zipWith (insAt i) rows xs).flatten := List.take_left' hZ
+    have hperm : ((List.zipWith (insAt i) rows xs).flatten ++ [] ++ rem.reverse.filterMap id).Perm
+        (t.data ++ it.events.filterMap id) := by
+      have hp := ow_zipWith_insAt_perm i rows xs (by omega)
+      rw [← hdata] at hp
+      refine (List.Perm.append_right _ (List.Perm.append_right _ hp)).trans ?_
+      rw [hevents, hpre]
+      apply ow_perm_of_count
+      intro a
+      simp only [List.count_append, List.filterMap_append, List.filterMap_reverse, List.count_reverse, List.count_nil,
+        List.reverse_reverse, List.filterMap_map, Function.comp_def, id, List.filterMap_some]
+      omega
+    rw [hrl]
+    simp only [htake]
+    generalize (List.zipWith (insAt i) rows xs).flatten = Z at hZ hperm ⊢
+    by_cases hR0 : R > 0
+    · rw [if_pos hR0]
+      refine ⟨by simp, by simp, ⟨?_, ?_, ?_⟩, hperm⟩
+      · show Z.length = (t.numCols + 1) * R
+        rw [Nat.add_mul]; omega
+      · show t.numCols + 1 = 0 ↔ R = 0
+        omega
+      · show Z.length < WORD
+        omega
+    · rw [if_neg hR0]
+      have hR : R = 0 := by omega
+      refine ⟨by simp, by simp, ⟨?_, Iff.rfl, ?_⟩, hperm⟩
+      · show Z.length = 0 * 0
+        rw [hR, Nat.mul_zero] at hlenR
+        omega
+      · show Z.length < WORD
+        omega
+
+end Toodee
+
+namespace Toodee
+variable {α : Type}
+
+/-! ### `Drop for DrainCol` with a panicking element destructor -/
+
+/-- the outcome of `DrainCol::drop` (C07_remove_col_drop) as an equation -/
+theorem ow_drainCol_drop_eq (m : Mode) (t : TD α) (h : t.Inv) (i : Nat) (hi : i < t.numCols)
+    (d : DrainCol α) (hb : d.buf = t.data) (hc : d.col = i) (hnc : d.numCols = t.numCols) (hnr : d.numRows = t.numRows)
+    (k : Nat) (hwf : d.iter.WF k t.data.length) :
+    d.drop m = .ok (⟨(t.grid.map fun ρ => ρ.eraseIdx i).flatten, if t.numCols = 1 then 0 else t.numRows, t.numCols - 1⟩,
+      (d.iter.abs k).filterMap (t.data[·]?)) := by
+  obtain ⟨t', dropped, hdrop, _, h1, h2, h3, h4, _⟩ := C07_remove_col_drop m t h i hi d hb hc hnc hnr k hwf
+  rw [hdrop, h1]
+  cases t' with
+  | mk data nr nc =>
+    simp only at h2 h3 h4
+    rw [h2, h3, h4]
+
+theorem ow_dropLoop (m : Mode) (t : TD α) (h : t.Inv) (i : Nat) (hi : i < t.numCols) :
+    ∀ (k : Nat) (d : DrainCol α) (j : Option Nat) (acc : List α) (fuel : Nat),
+      d.buf = t.data → d.col = i → d.numCols = t.numCols → d.numRows = t.numRows → d.iter.WF k t.data.length →
+      k < fuel →
+      ∃ t' dropped p, d.dropLoop m fuel j acc = .ok ((t', acc ++ dropped), p) ∧ d.drop m = .ok (t', dropped) ∧
+        (p = true ↔ ∃ jj, j = some jj ∧ jj < k) := by
+  intro k
+  induction k with
+  | zero =>
+    intro d j acc fuel hb hc hnc hnr hwf hf
+    obtain ⟨f, rfl⟩ : ∃ f, fuel = f + 1 := ⟨fuel - 1, by omega⟩
+    have hwf' : d.iter.WF 0 d.buf.length := by rw [hb]; exact hwf
+    obtain ⟨⟨d', hnext, hwfd, _, hb', hc', hnc', hnr'⟩, _, _⟩ := C07_drain_col_next m d 0 hwf'
+    have hx : ((Seq.next (d.iter.abs 0)).1).bind (d.buf[·]?) = none := by simp [Col.abs, Seq.next]
+    rw [hx] at hnext
+    rw [hb] at hwfd
+    have hd := ow_drainCol_drop_eq m t h i hi d hb hc hnc hnr 0 hwf
+    have hd' := ow_drainCol_drop_eq m t h i hi d' (hb'.trans hb) (hc'.trans hc) (hnc'.trans hnc) (hnr'.trans hnr) 0 hwfd
+    refine ⟨_, _, false, ?_, hd, by simp⟩
+    simp only [DrainCol.dropLoop, hnext, ok_bind, hd', pure_eq]
+    simp [Col.abs]
+  | succ k ih =>
+    intro d j acc fuel hb hc hnc hnr hwf hf
+    obtain ⟨f, rfl⟩ : ∃ f, fuel = f + 1 := ⟨fuel - 1, by omega⟩
+    have hwf' : d.iter.WF (k + 1) d.buf.length := by rw [hb]; exact hwf
+    obtain ⟨⟨d', hnext, hwfd, habs, hb', hc', hnc', hnr'⟩, _, _⟩ := C07_drain_col_next m d (k + 1) hwf'
+    have hlt := rl_col_abs_lt d.iter (k + 1) _ hwf
+    have hlen : (d.iter.abs (k + 1)).length = k + 1 := by simp [Col.abs]
+    rw [hb] at hwfd
+    simp only [Nat.add_sub_cancel] at hwfd habs
+    have hd := ow_drainCol_drop_eq m t h i hi d hb hc hnc hnr (k + 1) hwf
+    have hd' := ow_drainCol_drop_eq m t h i hi d' (hb'.trans hb) (hc'.trans hc) (hnc'.trans hnc) (hnr'.trans hnr) k hwfd
+    match hL : d.iter.abs (k + 1), hlen with
+    | p0 :: L', _ =>
+      rw [hL] at hnext habs hd hlt
+      have hp0 : p0 < t.data.length := hlt p0 (by simp)
+      have hget : t.data[p0]? = some t.data[p0] := List.getElem?_eq_getElem hp0
+      simp only [Seq.next, List.head?_cons, List.tail_cons, Option.bind_some, hb, hget] at hnext habs
+      rw [habs] at hd'
+      rw [List.filterMap_cons_some hget] at hd
+      by_cases hj : j = some 0
+      · refine ⟨_, _, true, ?_, hd, ?_⟩
+        · simp only [DrainCol.dropLoop, hnext, ok_bind, if_pos hj, hd', pure_eq]
+          simp
+        · simp only [true_iff]
+          exact ⟨0, hj, by omega⟩
+      · obtain ⟨t', dropped, p, hloop, hdrop, hp⟩ := ih d' (j.map (· - 1)) (acc ++ [t.data[p0]]) f (hb'.trans hb)
+          (hc'.trans hc) (hnc'.trans hnc) (hnr'.trans hnr) hwfd (by omega)
+        rw [hd'] at hdrop
+        injection hdrop with hdrop
+        injection hdrop with ht' hdr
+        subst ht' hdr
+        refine ⟨_, _, p, ?_, hd, ?_⟩
+        · simp only [DrainCol.dropLoop, hnext, ok_bind, if_neg hj, hloop]
+          simp
+        · rw [hp]
+          cases j with
+          | none => simp
+          | some n =>
+            cases n with
+            | zero => exact absurd rfl hj
+            | succ n =>
+              simp only [Option.map_some, Nat.add_sub_cancel, Option.some.injEq]
+              constructor
+              · rintro ⟨jj, h1, h2⟩
+                exact ⟨jj + 1, by omega, by omega⟩
+              · rintro ⟨jj, h1, h2⟩
+                exact ⟨n, rfl, by omega⟩
+
+end Toodee
+
+namespace Toodee
+variable {α : Type}
+
+/-! ### a bijective position map gives a permutation -/
+
+/-- pigeonhole: a duplicate-free list of numbers below `n` has at most `n` entries, and exactly `n` only if it is a
+    permutation of `0..n` -/
+theorem ow_nodup_bounded : ∀ (n : Nat) (l : List Nat), l.Nodup → (∀ a ∈ l, a < n) →
+    l.length ≤ n ∧ (l.length = n → l.Perm (List.range n))
+  | 0, l, _, hb => by
+    have : l = [] := by
+      cases l with
+      | nil => rfl
+      | cons a l => exact absurd (hb a (by simp)) (by omega)
+    subst this
+    exact ⟨Nat.le_refl _, fun _ => List.Perm.refl _⟩
+  | n + 1, l, hn, hb => by
+    by_cases hm : n ∈ l
+    · have hp := List.perm_cons_erase hm
+      have hn' : (l.erase n).Nodup := hn.erase n
+      have hb' : ∀ a ∈ l.erase n, a < n := by
+        intro a ha
+        have := (hn.mem_erase_iff).1 ha
+        have := hb a this.2
+        omega
+      obtain ⟨h1, h2⟩ := ow_nodup_bounded n (l.erase n) hn' hb'
+      have hl : l.length = (l.erase n).length + 1 := by simpa using hp.length_eq
+      refine ⟨by omega, fun he => ?_⟩
+      refine hp.trans ?_
+      rw [List.range_succ]
+      exact ((h2 (by omega)).cons n).trans (List.perm_append_singleton n _).symm
+    · have hb' : ∀ a ∈ l, a < n := by
+        intro a ha
+        have := hb a ha
+        have : a ≠ n := fun h => hm (h ▸ ha)
+        omega
+      obtain ⟨h1, _⟩ := ow_nodup_bounded n l hn hb'
+      exact ⟨by omega, fun he => by omega⟩
+
+/-- gathering along a position map that is injective on the buffer gives a permutation of the buffer -/
+theorem ow_gather_perm (buf : List α) (f : Nat → Nat) (hf : ∀ p, p < buf.length → f p < buf.length)
+    (hinj : ∀ p q, p < buf.length → q < buf.length → f p = f q → p = q) : (gather buf f).Perm buf := by
+  have hnd : ((List.range buf.length).map f).Nodup := by
+    unfold List.Nodup
+    rw [List.pairwise_map]
+    refine List.Pairwise.imp_of_mem ?_ (List.nodup_range (n := buf.length))
+    intro a b ha hb hab he
+    exact hab (hinj a b (List.mem_range.1 ha) (List.mem_range.1 hb) he)
+  have hbd : ∀ a ∈ (List.range buf.length).map f, a < buf.length := by
+    intro a ha
+    obtain ⟨p, hp, rfl⟩ := List.mem_map.1 ha
+    exact hf p (List.mem_range.1 hp)
+  have hperm := (ow_nodup_bounded buf.length _ hnd hbd).2 (by simp)
+  have h1 : gather buf f = ((List.range buf.length).map f).filterMap (buf[·]?) := by
+    unfold gather
+    rw [List.filterMap_map]
+    rfl
+  have h2 : (List.range buf.length).filterMap (buf[·]?) = buf := by
+    apply List.ext_getElem?
+    intro k
+    rw [filterMap_getElem?_of_isSome _ _ (by intro x hx; simp [List.mem_range.1 hx])]
+    by_cases hk : k < buf.length
+    · simp [hk]
+    · simp [hk]
+  rw [h1]
+  exact (hperm.filterMap _).trans (by rw [h2])
+
+/-- a cell map that is injective on the cells of the view gives an injective position map -/
+theorem ow_mapCells_inj {v : VW} {n : Nat} (h : v.Inv n) (g : Nat × Nat → Nat × Nat)
+    (hg : ∀ c r, c < v.numCols → r < v.numRows → (g (c, r)).1 < v.numCols ∧ (g (c, r)).2 < v.numRows)
+    (hinj : ∀ c r c' r', c < v.numCols → r < v.numRows → c' < v.numCols → r' < v.numRows →
+      g (c, r) = g (c', r') → (c, r) = (c', r'))
+    (p q : Nat) (he : v.mapCells g p = v.mapCells g q) : p = q := by
+  cases hp : v.coord? p with
+  | none =>
+    rw [VW.mapCells_of_none g hp] at he
+    cases hq : v.coord? q with
+    | none => rw [VW.mapCells_of_none g hq] at he; exact he
+    | some cr =>
+      obtain ⟨c, r⟩ := cr
+      obtain ⟨_, hc, hr⟩ := VW.coord?_eq_some hq
+      rw [VW.mapCells_of_some g hq] at he
+      exact absurd he (VW.ne_pos_of_coord?_none h hp (hg c r hc hr).1 (hg c r hc hr).2)
+  | some cr =>
+    obtain ⟨c, r⟩ := cr
+    obtain ⟨hpe, hc, hr⟩ := VW.coord?_eq_some hp
+    rw [VW.mapCells_of_some g hp] at he
+    cases hq : v.coord? q with
+    | none =>
+      rw [VW.mapCells_of_none g hq] at he
+      exact absurd he.symm (VW.ne_pos_of_coord?_none h hq (hg c r hc hr).1 (hg c r hc hr).2)
+    | some cr' =>
+      obtain ⟨c', r'⟩ := cr'
+      obtain ⟨hqe, hc', hr'⟩ := VW.coord?_eq_some hq
+      rw [VW.mapCells_of_some g hq] at he
+      have hgg := VW.pos_inj h (hg c r hc hr).1 (hg c r hc hr).2 (hg c' r' hc' hr').1 (hg c' r' hc' hr').2 he
+      have hcr := hinj c r c' r' hc hr hc' hr' (Prod.ext hgg.1 hgg.2)
+      injection hcr with e1 e2
+      rw [hpe, hqe, e1, e2]
+
+end Toodee
